@@ -254,6 +254,25 @@ def parse_displayed(out):
     return d, summary
 
 
+STAGE_CASES = [
+    ("shadowing-in-function", "pragma circom 2.0.0;\nfunction f(a) {\n  var x = a;\n  if (a > 0) {\n    var x = 2;\n    return x;\n  }\n  return x;\n}\ntemplate T() { signal input in; signal output out; out <== in + f(1); }\ncomponent main = T();\n",
+     [("CS0001", 5)]),
+    ("shadowing-in-template", "pragma circom 2.0.0;\ntemplate T(n) {\n  signal input in; signal output out;\n  var x = n;\n  for (var i = 0; i < 2; i++) {\n    var x = i;\n    x = x + 1;\n  }\n  out <== in + x;\n}\ncomponent main = T(1);\n",
+     [("CS0001", 6)]),
+    ("shadowing-in-instantiated-template", "pragma circom 2.0.0;\ntemplate B(n) {\n  signal input in; signal output out;\n  var x = n;\n  if (n > 0) {\n    var x = 3;\n    x = x + 1;\n  }\n  out <== in + x;\n}\ntemplate A() {\n  signal input in; signal output out;\n  component b = B(2);\n  b.in <== in;\n  out <== b.out;\n}\ncomponent main = A();\n",
+     [("CS0001", 6)]),
+    ("duplicate-template-parameters", "pragma circom 2.0.0;\ntemplate T(a, a) { signal input in; signal output out; out <== in + a; }\ncomponent main = T(1, 2);\n",
+     [("CS0002", 2)]),
+    ("duplicate-function-parameters", "pragma circom 2.0.0;\nfunction f(a, a) { return a; }\ntemplate T(b) { signal input in; signal output out; out <== in + f(b, b); }\ncomponent main = T(1);\n",
+     [("CS0002", 2)]),
+    ("no-stage-findings", "pragma circom 2.0.0;\ntemplate T() { signal input in; signal output out; out <== in; }\ncomponent main = T();\n", []),
+]
+
+
+def want_codes_all(cases):
+    return {c for (_, _, w) in cases for (c, _) in w}
+
+
 def suite_output(exe, tier, seed):
     from collections import Counter
     viol, samples = [], []
@@ -307,6 +326,30 @@ def suite_output(exe, tier, seed):
                 if what and len(viol) < 20 and not any(v["obligation"].endswith(clause) for v in viol):
                     viol.append({"unit": "e2e", "fn": "main", "obligation": f"e2e|output|{clause}", "input": {"level": level, "allow": allow, "files": files},
                                  "what": f"--level {level} --allow {allow} --sarif-file: {what}", "replay": "python3 run/e2e.py output quick 0"})
+        # ---- findings produced while a definition's CFG is generated (shadowing warnings, lifting failures): displayed exactly
+        # once, whether the definition is analysed on its own or was looked up by another definition first (either order
+        # occurs: definitions live in randomly seeded hash maps, so every case is run several times)
+        for (name, src, want_codes) in STAGE_CASES:
+            path = os.path.join(d, "stage.circom")
+            open(path, "w").write(src)
+            for rep in range(2 if tier == "quick" else 8):
+                rc, out, err = run_cli(exe, ["-v", path], d)
+                evals += 1
+                nontrivial += 1
+                got = Counter((code, ln) for (code, ln, _) in coded_findings(out) if code in want_codes_all(STAGE_CASES))
+                want = Counter(want_codes)
+                what = None
+                if rc is None or "panicked" in err or rc not in (0, 1):
+                    what = f"abnormal termination (exit {rc})"
+                elif got != want:
+                    what = f"displayed {sorted(got.items())}, the definition produces {sorted(want.items())} while its CFG is generated"
+                elif want and rc == 0:
+                    what = "findings displayed but exit status 0"
+                if what:
+                    if len(viol) < 20 and not any(v["obligation"] == f"e2e|output|stage:{name}" for v in viol):
+                        viol.append({"unit": "e2e", "fn": "AnalysisRunner::analyze_* / cache_*", "obligation": f"e2e|output|stage:{name}", "input": {"case": name, "source": src},
+                                     "what": f"{name}: {what}", "replay": "python3 run/e2e.py output quick 0"})
+                    break
     finally:
         shutil.rmtree(d, ignore_errors=True)
     return {"unit": "e2e-output", "evaluations": evals, "distinct_nontrivial": nontrivial, "exhaustive": tier == "thorough",
